@@ -102,6 +102,9 @@ func (f *Fetcher) FetchData(ctx context.Context) (Data, error) {
 	if len(f.data.Cookie) == 0 {
 		err := f.exchangeKeys(ctx)
 		if err != nil {
+			// keep nothing of a failed exchange: cookies received before the
+			// failure must not be used with keys that were never exported
+			f.data = Data{}
 			return Data{}, err
 		}
 	}
